@@ -6,7 +6,7 @@ META = {
     "assumptions": ["A-TIME", "A-T", "A-SOLVER", "A-ENGINE"],
     "explanation": "RunPeriod.__call__ proved equal to the position formula (pre-start row, unknown date, first/last flags, neighbour to compare); each compare_dates proved to be "
     "a key inequality over calendar accessors with the key extracted from the body, and that key confronted with an independent stdlib calendar key on EVERY day of pandas' "
-    "Timestamp range (complete enumeration) plus intraday stamps; counting schedulers under functional specs plus induction lemmas over the call count.",
+    "Timestamp range (complete enumeration) plus intraday stamps; counting schedulers under functional specs plus induction lemmas over the call count; the constructors of the date / counting schedulers proved (AST obligation) to keep their parameters as given (pd.to_datetime of the argument, nothing that rounds or shifts it).",
 }
 MANIFEST_ENTRY = {
     "level_text": "Deductive proof of the position logic and of the counting/date schedulers for all indices, flags and parameters (linear integer arithmetic, no bound); "
@@ -26,15 +26,18 @@ def tasks(tier, seed):
         func("bt.algos.RunAfterDate.__call__"),
         func("bt.algos.RunOnDate.__call__"),
         dict(kind="custom", module="props.c12_tasks", fn="counting_lemmas"),
+        dict(kind="custom", module="props.c12_tasks", fn="constructor_task"),
     ]
     for cls in ("RunDaily", "RunWeekly", "RunMonthly", "RunQuarterly", "RunYearly"):
         ts.append(dict(kind="custom", module="props.c12_tasks", fn="comparator_task", cls=cls))
+    ts.append(dict(kind="custom", module="props.bounded", fn="run_script", script="c12_schedulers", seed=seed, n=25 if tier == "quick" else 600, props=["C12"]))
     return ts
 
 
 def post(results, tier, seed):
     ex = [r.get("exhaustive") for r in results if r.get("exhaustive")]
-    return dict(exhaustive=True, exhaustive_domains=ex, evaluations=sum(e["days"] + e["intraday_stamps"] for e in ex)), None
+    b = [r["bounded"] for r in results if r.get("bounded")]
+    return dict(exhaustive=True, exhaustive_domains=ex, evaluations=sum(e["days"] + e["intraday_stamps"] for e in ex)), dict(bounded_stand_ins=b, bounded_note="every scheduler in front of a recording algo through the real Backtest over random date indices (constructors, one- and two-row data, intraday stamps); never counted in obligations/discharged")
 
 
 REPLAY_TMPL = '''
